@@ -356,6 +356,66 @@ def c17_10(ctx):
     return out
 
 
+def c17_11(ctx):
+    """target_to_bits: the mantissa is preceded by 00 (and the exponent incremented) exactly when the leading byte has its top
+    bit set (0x80..0xff), as in consensus GetCompact; a cut anywhere else changes the bits of some targets"""
+    from sa.ranges import Ranges
+    spec = "helper:target_to_bits"
+    mod, fn = rl.get(ctx, spec)
+    cfg = cfg_of(fn)
+    # the tested quantity: <bytes name>[0]
+    key = None
+    for n in cfg.tests():
+        for x in ast.walk(n.ast):
+            if isinstance(x, ast.Subscript) and isinstance(x.value, ast.Name) and isinstance(x.slice, ast.Constant) and x.slice.value == 0:
+                key = ast.unparse(x)
+    if key is None:
+        return [ctx.err(spec, "test on the leading byte not found", fn, mod)]
+    ra = Ranges(ctx.repo, mod, fn, {key: ISet.range(0, 255)}, types={key: ISet.range(0, 255)})
+    padded = ISet.empty()
+    seen = 0
+    for n in cfg.stmts(("stmt", "return")):
+        a = n.ast
+        v = a.value if isinstance(a, (ast.Assign, ast.Return)) else None
+        if v is None:
+            continue
+        if any(isinstance(x, ast.BinOp) and isinstance(x.op, ast.Add) and isinstance(x.left, ast.Constant) and x.left.value == b"\x00" for x in ast.walk(v)):
+            padded = padded.union(ra.at(n.id, key))
+            seen += 1
+    tests = [n for n in cfg.tests() if key in ast.unparse(n.ast)]
+    if seen < 1 or ra.uninterpreted or len(tests) != 1:
+        return [ctx.err(spec, "the 00-prefixed mantissa form / the single test on the leading byte were not recognised", fn, mod)]
+    plain = ISet.range(0, 255).minus(padded)
+    want_p, want_q = ISet.range(0x80, 0xFF), ISet.range(0, 0x7F)
+    if padded == want_p and plain == want_q:
+        return [ctx.ok(spec, "00-prefixed mantissa exactly for a leading byte in [0x80, 0xff]; plain mantissa for [0x00, 0x7f]", fn, mod, key="sign-cut")]
+    w = padded.minus(want_p).witness((0x7F,)) if not padded.issubset(want_p) else want_p.minus(padded).witness((0x80,))
+    return [ctx.bad(spec, "the 00-prefixed mantissa is used for a leading byte in %s (consensus: [0x80, 0xff]); a target whose leading byte is %s gets bits that differ from "
+                          "GetCompact" % (padded.describe({}), hex(w) if isinstance(w, int) else w), fn, mod, key="sign-cut", detail={"witness_value": str(w)})]
+
+
+def c17_12(ctx):
+    """MerkleBlock.is_valid rebuilds the partial tree from the object's current flags, hashes and total on every call: no path
+    reaches the verdict without populate_tree(...) over them (a verdict taken from an earlier build vouches for fields that
+    were changed since)"""
+    spec = "merkleblock:MerkleBlock.is_valid"
+    mod, fn = rl.get(ctx, spec)
+    cfg = cfg_of(fn)
+    pops = rl.find_calls(fn, "populate_tree")
+    if not pops:
+        return [ctx.err(spec, "populate_tree is not called", fn, mod)]
+    out = []
+    reach = cfg.reach([cfg.entry], blocked={n.id for n, _ in pops})
+    rets = [n for n in cfg.returns() if n.id in reach and not (n.ast is not None and isinstance(n.ast.value, ast.Constant) and n.ast.value.value is False)]
+    if rets:
+        p = cfg.path([cfg.entry], [rets[0].id])
+        out.append(ctx.bad(spec, "a verdict is returned at line %d without rebuilding the tree (path %s): after a first validation, changed hashes / flags / total are never "
+                                 "looked at again, so an altered proof still validates" % (rets[0].lineno, cfg.fmt_path(p or [])), rets[0].ast, mod, key="rebuild"))
+    else:
+        out.append(ctx.ok(spec, "every verdict is preceded by populate_tree on all paths", pops[0][1], mod, key="rebuild"))
+    return out
+
+
 OBLIGATIONS = [
     ("C17.1", "GUARD", c17_1),
     ("C17.2", "EXACT", c17_2),
@@ -367,5 +427,7 @@ OBLIGATIONS = [
     ("C17.8", "RANGE output", c17_8),
     ("C17.9", "GUARD per-iteration", c17_9),
     ("C17.10", "BITS", c17_10),
+    ("C17.11", "RANGE partition", c17_11),
+    ("C17.12", "MUST-PASS", c17_12),
 ]
 FLOORS = {"C17.1": 3, "C17.3": 3, "C17.4": 2, "C17.5": 6, "C17.6": 2, "C17.7": 2, "C17.8": 4, "C17.9": 2}
